@@ -36,7 +36,7 @@ LineOf(a, e, b) ==
     ptr |-> a.cur, tr |-> b.trk, ptrcs |-> CsOf(a, a.cur), trcs |-> b.trks,
     pleak |-> LeakOf(a), leak |-> LeakOf(b), pend |-> PendOf(b),
     out |-> b.out, rep |-> b.rep, closes |-> b.cl, att |-> b.att, exc |-> 0, hang |-> FALSE,
-    sS |-> <<>>, sR |-> <<>>, wS |-> <<>>, wR |-> <<>>,
+    sS |-> <<>>, sR |-> <<>>, wS |-> <<>>, wR |-> <<>>, fz |-> "", flen |-> 0, probeok |-> TRUE, aspathok |-> TRUE, acc |-> 0, esub |-> 0,
     rest |-> [rule |-> "", method |-> "", cred |-> "", status |-> 200, ok |-> 1]]
 \* in the model "manual stop in force" is exactly allow_automatic_start = FALSE
 MonOf(a) == [Mon0 EXCEPT !.stopped = IF a.allow THEN "no" ELSE "yes"]
